@@ -17,3 +17,4 @@ CHECKS['C11'] = inject.check
 CHECKS['C03'] = loop.check
 CHECKS['C06'] = loop.check
 CHECKS['C19'] = replicas.check
+CHECKS['C05'] = loop.check_c05
